@@ -849,8 +849,15 @@ fn checkopts_inner(line: &str) -> anyhow::Result<String> {
             }
             let bad_before: usize = [FileType::Snapshot, FileType::Index, FileType::Pack].iter().map(|t| bad_entries(&root, *t, store.as_ref()).len()).sum();
             let o = CheckOptions::default().read_data(rd).trust_cache(tc);
-            let a = open_repo(store.clone(), None, &key, &copts)?.check(o)?.is_ok().is_ok();
-            let b = open_repo(store.clone(), None, &key, &repo_opts())?.check(o)?.is_ok().is_ok();
+            // an Err of the command itself is a verdict too (e.g. the index cannot be read)
+            let verdict = |ro: &RepositoryOptions| -> anyhow::Result<String> {
+                Ok(match open_repo(store.clone(), None, &key, ro)?.check(o) {
+                    Ok(res) => res.is_ok().is_ok().to_string(),
+                    Err(_) => "error".into(),
+                })
+            };
+            let a = verdict(&copts)?;
+            let b = verdict(&repo_opts())?;
             let bad: Vec<String> = [FileType::Snapshot, FileType::Index, FileType::Pack].iter().flat_map(|t| bad_entries(&root, *t, store.as_ref())).collect();
             runs += 1;
             cleaned += bad_before;
